@@ -1,23 +1,70 @@
 package event
 
+import (
+	"slices"
+	"sync"
+)
+
 type EventFn[T any] func(data T)
 
 type Unsubscribe func()
 
-type Event[T any] struct {
-	subscribers []EventFn[T]
+// subscriber delivers values to one listener: one call at a time, in firing order, and a value
+// that has not been delivered yet is replaced by a newer one (the listener only needs the latest).
+type subscriber[T any] struct {
+	fn      EventFn[T]
+	mu      sync.Mutex
+	pending *T
+	running bool
+	removed bool
 }
+
+type state[T any] struct {
+	mu          sync.Mutex
+	subscribers []*subscriber[T]
+}
+
+type Event[T any] struct {
+	st *state[T]
+}
+
+// Guards the lazy allocation of an Event's state (the zero value of Event is ready to use).
+var initMu sync.Mutex
 
 func New[T any]() *Event[T] {
 	return &Event[T]{}
 }
 
+func (e *Event[T]) state() *state[T] {
+	initMu.Lock()
+	defer initMu.Unlock()
+	if e.st == nil {
+		e.st = &state[T]{}
+	}
+	return e.st
+}
+
 // Adds a subscriber to the event.
 func (e *Event[T]) Subscribe(fn EventFn[T]) Unsubscribe {
-	index := len(e.subscribers)
-	e.subscribers = append(e.subscribers, fn)
+	st := e.state()
+	sub := &subscriber[T]{fn: fn}
+
+	st.mu.Lock()
+	st.subscribers = append(st.subscribers, sub)
+	st.mu.Unlock()
+
 	return func() {
-		e.subscribers = append(e.subscribers[:index], e.subscribers[index+1:]...)
+		st.mu.Lock()
+		if i := slices.Index(st.subscribers, sub); i >= 0 {
+			st.subscribers = slices.Delete(slices.Clone(st.subscribers), i, i+1)
+		}
+		st.mu.Unlock()
+
+		// Nothing is delivered to the subscriber after this point.
+		sub.mu.Lock()
+		sub.removed = true
+		sub.pending = nil
+		sub.mu.Unlock()
 	}
 }
 
@@ -25,7 +72,41 @@ func (e *Event[T]) Subscribe(fn EventFn[T]) Unsubscribe {
 // NOTE: The subscribers are notified in separate goroutines,
 // so be aware of potential race conditions.
 func (e *Event[T]) Fire(data T) {
-	for _, subscriber := range e.subscribers {
-		go subscriber(data)
+	st := e.state()
+	st.mu.Lock()
+	subscribers := st.subscribers
+	st.mu.Unlock()
+
+	for _, sub := range subscribers {
+		sub.deliver(data)
+	}
+}
+
+func (s *subscriber[T]) deliver(data T) {
+	s.mu.Lock()
+	defer s.mu.Unlock()
+	if s.removed {
+		return
+	}
+	s.pending = &data
+	if !s.running {
+		s.running = true
+		go s.run()
+	}
+}
+
+func (s *subscriber[T]) run() {
+	for {
+		s.mu.Lock()
+		if s.pending == nil || s.removed {
+			s.running = false
+			s.mu.Unlock()
+			return
+		}
+		data := *s.pending
+		s.pending = nil
+		s.mu.Unlock()
+
+		s.fn(data)
 	}
 }
